@@ -7,7 +7,7 @@
 From InvokeVerif Require Import Corr.C07Corr Proofs.C07_fuel Proofs.C07_errors Proofs.C07_witness
      Proofs.C07_positional.
 From InvokeVerif Require Spec.C01Spec Proofs.C01_final Proofs.C01_wide_final2.
-From InvokeVerif Require Import Proofs.C07_noerror.
+From InvokeVerif Require Import Proofs.C07_noerror Proofs.C07_converse Proofs.C18_parser Proofs.C01_steps.
 
 (** Termination (full): the token loop -- which re-inserts pieces of split
     tokens into the list it iterates over -- always ends within [body_fuel]
@@ -99,6 +99,72 @@ Theorem C07_no_error_on_wide_fragment : forall cs ic inv,
   parser_ok cs = true -> C01_wide_final2.guard_wide_x cs ic inv = true ->
   exists r, parser_parse cs (Some ic) false (C01Spec.spell cs inv) = Ok r.
 Proof. exact no_error_wide. Qed.
+
+(** "Raises in the documented situations", universally quantified (state-level
+    counterparts of the spec clauses B2-B4; B1 is [C07_missing_positional_errors]).
+    Each holds for EVERY parser [p], every prefix [pre] of the command line that
+    the loop has processed without error (leaving machine [m1]), and everything
+    that may follow; the guard is a condition on [m1] and the next token. *)
+
+(** B3 -- an unknown token: nothing pending (not waiting for a value, no
+    positional missing), a plain word that is not a task name, not ignore_unknown. *)
+Theorem C07_unknown_token_raises_partial : forall p f1 m0 pre m1 tok rest,
+  new_machine p = Ok m0 -> loop p f1 m0 pre = Some (Ok m1) ->
+  no_ddash (pre ++ tok :: rest) = true ->
+  p_ignore p = false ->
+  m_st m1 = SContext -> waiting m1 = false ->
+  match cur_ctx m1 with Some c => has_missing c | None => false end = false ->
+  starts_with "-" tok = false -> is_ctx_name (p_ctxs p) tok = false ->
+  parse_argv p (pre ++ tok :: rest) = Err EParse.
+Proof. exact unknown_token_raises. Qed.
+
+(** B4 -- an ambiguous token after an optional-value flag: the pending flag is
+    optional-value without value; the next plain word names a task, or the
+    current task still lacks a positional. *)
+Theorem C07_ambiguous_token_raises_partial : forall p f1 m0 pre m1 r tok rest,
+  new_machine p = Ok m0 -> loop p f1 m0 pre = Some (Ok m1) ->
+  no_ddash (pre ++ tok :: rest) = true ->
+  m_st m1 = SContext ->
+  flag_arg m1 = Some r -> takes_value (r_spec r) = true ->
+  a_optional (r_spec r) = true -> r_raw r = false ->
+  starts_with "-" tok = false ->
+  (match cur_ctx m1 with Some c => has_missing c | None => false end
+   || is_ctx_name (p_ctxs p) tok) = true ->
+  parse_argv p (pre ++ tok :: rest) = Err EParse.
+Proof. exact ambiguous_token_raises. Qed.
+
+(** B2 -- a value-requiring flag left without a value: the LAST token is an
+    exact flag of the current context for an argument that takes a non-optional
+    value and has not been given one before ([r_raw r = false]).  The guard is
+    exactly the complement of the two findings: list-kind arguments start with
+    raw_value = [] (F-C07c) and an argument that already holds a value has
+    raw_value set (F-C07d) -- both have [r_raw = true]. *)
+Theorem C07_missing_value_raises_partial : forall p f1 m0 pre m1 c k t i r,
+  new_machine p = Ok m0 -> loop p f1 m0 pre = Some (Ok m1) ->
+  no_ddash (pre ++ [t]) = true ->
+  m_st m1 = SContext -> m_unparsed m1 = [] ->
+  m_cur m1 = Some k -> get_ctx m1 k = Some c ->
+  clean_flag t = true ->
+  find_flag (rc_args c) t = Some i -> nth_error (rc_args c) i = Some r ->
+  takes_value (r_spec r) = true -> a_optional (r_spec r) = false ->
+  r_raw r = false ->
+  fails (parse_argv p (pre ++ [t])).
+Proof. exact dangling_value_flag_raises. Qed.
+
+Example C07_converse_hypotheses_inhabited :
+  (exists m0 m1, new_machine ex_parser = Ok m0 /\ loop ex_parser 9 m0 ["t"; "v"] = Some (Ok m1) /\
+                 m_st m1 = SContext /\ waiting m1 = false /\
+                 match cur_ctx m1 with Some c => has_missing c | None => false end = false) /\
+  parse_argv ex_parser ["t"; "v"; "zzz"; "u"] = Err EParse /\
+  (exists m0 m1 r, new_machine ex_parser = Ok m0 /\
+                   loop ex_parser 9 m0 ["t"; "v"; "--opt"] = Some (Ok m1) /\
+                   flag_arg m1 = Some r /\ a_optional (r_spec r) = true /\ r_raw r = false) /\
+  parse_argv ex_parser ["t"; "v"; "--opt"; "u"] = Err EParse /\
+  (exists m0 m1 c r, new_machine ex_parser = Ok m0 /\ loop ex_parser 9 m0 ["t"; "v"] = Some (Ok m1) /\
+                     get_ctx m1 0 = Some c /\ find_flag (rc_args c) "--name" = Some 0 /\
+                     nth_error (rc_args c) 0 = Some r /\ r_raw r = false) /\
+  parse_argv ex_parser ["t"; "v"; "--name"] = Err EParse.
+Proof. exact converse_examples. Qed.
 
 (** A TEST, not the property: all 2958 command lines of <= 3 tokens over a
     14-token alphabet (task names, flags, glued/= forms, cluster, "--", inverse
